@@ -19,7 +19,7 @@ type csvConfig struct {
 	eol          string
 }
 
-func csvWrite(table [][]string, cfg csvConfig, q rune, sep rune) string {
+func csvWrite(table [][]string, cfg csvConfig, q rune, sep rune, quoteAll bool) string {
 	var rows []string
 	for _, row := range table {
 		var fs []string
@@ -35,7 +35,9 @@ func csvWrite(table [][]string, cfg csvConfig, q rune, sep rune) string {
 					needs = true
 				}
 			}
-			if needs {
+			// a field may always be written quote-encoded (the empty field as two quotes), except the
+			// single field of a one-field row, which written as two quotes is still one empty field
+			if needs || (quoteAll && len(row) > 1) {
 				f = string(q) + strings.ReplaceAll(f, string(q), string(q)+string(q)) + string(q)
 			}
 			fs = append(fs, f)
@@ -140,7 +142,19 @@ func (c *Ctx) csvxRun() *simpleVerdict {
 					v.undec = "SetQuoteSymbols: " + out.why
 					return
 				}
-				alpha := []string{"a", string(cfg.seps[0]), string(cfg.quotes[0]), "\n", "\r", "ж"}
+				alpha := []string{"a", string(cfg.seps[0]), string(cfg.quotes[0]), "\n", "\r", "ж", "\v", "\f"}
+				// the default separator and quote are plain data once they are configured away
+				for _, dflt := range []rune{',', '"'} {
+					used := false
+					for _, r := range append(append([]rune{}, cfg.seps...), cfg.quotes...) {
+						if r == dflt {
+							used = true
+						}
+					}
+					if !used {
+						alpha = append(alpha, string(dflt))
+					}
+				}
 				if len(cfg.seps) > 1 {
 					alpha = append(alpha, string(cfg.seps[1]))
 				}
@@ -161,14 +175,20 @@ func (c *Ctx) csvxRun() *simpleVerdict {
 					for _, f2 := range seconds {
 						k++
 						table := [][]string{{f1, f2}, {"x", ""}}
-						if k%3 == 1 {
+						switch k % 4 {
+						case 1:
 							table = [][]string{{"", "y"}, {f1, f2}}
-						} else if k%3 == 2 {
+						case 2:
 							table = [][]string{{f1, "", f2}}
+						case 3:
+							table = [][]string{{f1}, {""}, {f2}} // a row that is one empty field
+							if f1 == "" || f2 == "" {
+								table = [][]string{{"p"}, {""}, {""}, {f1 + "q" + f2}}
+							}
 						}
 						q := cfg.quotes[k%len(cfg.quotes)]
 						sep := cfg.seps[k%len(cfg.seps)]
-						text := csvWrite(table, cfg, q, sep)
+						text := csvWrite(table, cfg, q, sep, k%5 == 0)
 						v.runs++
 						if k%701 == 0 {
 							noteSample("CSV.roundtrip/tables", fmt.Sprintf("separators %q quotes %q eol %q: %q", string(cfg.seps), string(cfg.quotes), cfg.eol, text))
